@@ -2,13 +2,15 @@ from asyncio import CancelledError, Task, current_task
 from collections.abc import (
     AsyncGenerator,
     AsyncIterator,
+    Awaitable,
     Callable,
     Coroutine,
+    Generator,
     Iterable,
 )
 from contextvars import Context, copy_context
 from logging import Logger
-from types import TracebackType
+from types import TracebackType, coroutine
 from typing import Any, final
 
 from haiway.context.disposables import Disposable, Disposables
@@ -21,6 +23,88 @@ from haiway.utils import freeze
 __all__ = [
     "ctx",
 ]
+
+
+@coroutine
+def _within_context[Result](
+    context: Context,
+    awaitable: Awaitable[Result],
+    /,
+) -> Generator[Any, Any, Result]:
+    # drive the awaitable step by step, each step within the given context
+    # instead of the context of the task awaiting it
+    iterator: Generator[Any, Any, Result] = awaitable.__await__()
+    try:
+        pending: Any = context.run(iterator.send, None)
+
+    except StopIteration as result:
+        return result.value
+
+    while True:
+        try:
+            received: Any = yield pending
+
+        except GeneratorExit:
+            context.run(iterator.close)
+            raise
+
+        except BaseException as exc:
+            try:
+                pending = context.run(iterator.throw, exc)
+
+            except StopIteration as result:
+                return result.value
+
+        else:
+            try:
+                pending = context.run(iterator.send, received)
+
+            except StopIteration as result:
+                return result.value
+
+
+@final
+class _ContextStream[Result]:
+    def __init__(
+        self,
+        generator: AsyncGenerator[Result, None],
+        /,
+        context: Context,
+        scope: "ScopeContext",
+    ) -> None:
+        self._generator: AsyncGenerator[Result, None] = generator
+        self._context: Context = context
+        self._scope: ScopeContext = scope
+        self._started: bool = False
+
+    def __aiter__(self) -> AsyncIterator[Result]:
+        return self
+
+    async def __anext__(self) -> Result:
+        self._started = True
+        return await _within_context(
+            self._context,
+            self._generator.__anext__(),
+        )
+
+    async def aclose(self) -> None:
+        if self._started:
+            await _within_context(
+                self._context,
+                self._generator.aclose(),
+            )
+
+        else:  # never started - pass through the prepared scope to let it complete
+            self._started = True
+            await self._generator.aclose()
+            await _within_context(
+                self._context,
+                self._pass_scope(),
+            )
+
+    async def _pass_scope(self) -> None:
+        async with self._scope:
+            pass
 
 
 @final
@@ -323,8 +407,12 @@ class ctx:
                 async for result in source(*args, **kwargs):
                     yield result
 
-        # finally return it as an iterator
-        return context_snapshot.run(generator)
+        # finally return it as an iterator running each step within the snapshot
+        return _ContextStream(
+            context_snapshot.run(generator),
+            context=context_snapshot,
+            scope=streaming_context,
+        )
 
     @staticmethod
     def check_cancellation() -> None:
